@@ -22,7 +22,8 @@ RULE = ('one run = seeded universe of small lexicons (ids a/ab/a-b/abc/b/zz so t
         '(*, id:version, id:*, *:version, bare ids, globs with * ? [..], absent ids/versions, '
         'space-separated lists mixing all of these) x lang in {None, each language, absent} is '
         'evaluated through wn.lexicons(), wn.Wordnet() and (on a database copy) wn.remove() '
-        'and compared, as a set, with the model of the documented table. one evaluation = one '
+        'and compared, as a set, with the model of the documented table; 0.2% of the runs install '
+        '257-513 tiny lexicons (judged when all are installed and after one removal). one evaluation = one '
         '(store state, specifier, lang, entry point). distinct = distinct (installed list, '
         'specifier, lang); non-trivial = >=2 versions of some id installed')
 
